@@ -247,6 +247,90 @@ def refused_correspondence(ctx):
                           {"oracle": "refused", **c})
 
 
+def failed_then_run(kind, n, fail_noisy, noisy_after):
+    """through the PUBLIC entry point simulator.run, on ONE parameter object: a run whose engine raises midway (the trajectory routine
+    raises NotImplementedError, as the real one does for a three-qubit gate), then a run that completes; returns (failed as expected,
+    num_traj / shots between the two, trajectories executed by the second, value afterwards, rows or counts)"""
+    import mqt.yaqs.simulator as S
+    from qiskit import QuantumCircuit
+
+    from mqt.yaqs.core.data_structures.networks import MPO, MPS
+    from mqt.yaqs.core.data_structures.noise_model import NoiseModel
+    from mqt.yaqs.core.data_structures.simulation_parameters import AnalogSimParams, Observable, StrongSimParams, WeakSimParams
+
+    nm_on = NoiseModel([{"name": "pauli_x", "sites": [0], "strength": 0.1}])
+    qc = QuantumCircuit(2)
+    qc.h(0)
+    if kind == "strong":
+        p, op = StrongSimParams([Observable("z", 0)], num_traj=n, show_progress=False), qc
+    elif kind == "analog":
+        p, op = AnalogSimParams([Observable("z", 0)], elapsed_time=0.2, dt=0.1, num_traj=n, show_progress=False), MPO.ising(2, 1, 0.5)
+    else:
+        p, op = WeakSimParams(shots=n, show_progress=False), qc
+    saved = (S.digital_tjm, S.analog_tjm_1, S.analog_tjm_2)
+    st, calls = {"fail": True}, []
+
+    def stub(args, p=p):
+        if st["fail"]:
+            raise NotImplementedError("operation not supported (injected)")
+        calls.append(args[0])
+        if kind == "weak":
+            return {0: int(p.shots)}
+        return [np.full(o.trajectories.shape[1:], 1.0) for o in p.sorted_observables]
+
+    S.digital_tjm = S.analog_tjm_1 = S.analog_tjm_2 = stub
+    try:
+        failed = False
+        try:
+            S.run(MPS(2), op, p, nm_on if fail_noisy else None, parallel=False)
+        except NotImplementedError:
+            failed = True
+        between = int(p.shots if kind == "weak" else p.num_traj)
+        st["fail"] = False
+        S.run(MPS(2), op, p, nm_on if noisy_after else None, parallel=False)
+        if kind == "weak":
+            return failed, between, len(calls), int(p.shots), int(sum(p.results.values()))
+        return failed, between, len(calls), int(p.num_traj), int(p.observables[0].trajectories.shape[0])
+    finally:
+        S.digital_tjm, S.analog_tjm_1, S.analog_tjm_2 = saved
+
+
+def failed_correspondence(ctx):
+    cases, exprs, impl = [], [], []
+    for k in range(ctx.scale(12, 96)):
+        kind = ("strong", "analog", "weak")[k % 3]
+        n, fail_noisy, noisy_after = int(ctx.rng.integers(2, 9)), bool((k // 3) % 2), bool((k // 6) % 2)
+        try:
+            impl.append(failed_then_run(kind, n, fail_noisy, noisy_after))
+        except Exception as e:  # noqa: BLE001
+            impl.append(f"EXC:{type(e).__name__}:{e}")
+        h = f"[(Fails, {g_bool(fail_noisy)})]"
+        if kind == "weak":
+            p0 = f"{{| shots := {g_nat(n)}; meas := repeat None {g_nat(n)} |}}"
+            exprs.append(f"let q := weak_tries {h} {p0} in let r := run_weak {g_bool(noisy_after)} q in (shots q, snd (fst r), shots (fst (fst r)), snd r)")
+        else:
+            p0 = f"{{| num_traj := {g_nat(n)}; traj_rows := 0%nat |}}"
+            exprs.append(f"let q := strong_tries {h} {p0} in let r := run_strong {g_bool(noisy_after)} q in (num_traj q, snd r, num_traj (fst r), traj_rows (fst r))")
+        cases.append({"class": kind, "n": n, "failed_run_noisy": fail_noisy, "noisy": noisy_after})
+    vals = common.coq_eval_sharded(HEADER + "\nFrom Yaqs Require Import Model.Failures.", exprs, tag="c20f")
+    for c, i, v in zip(cases, impl, vals):
+        ctx.case(nontrivial_key=("failed", str(c)), validated=True)
+        ctx.count("failed_then_run_" + c["class"])
+        want = tuple(int(x) for x in v)
+        if isinstance(i, str) or not i[0]:
+            ctx.mismatch("a run whose trajectory routine raises ends with that exception (Failures.try_*)", c, i, "NotImplementedError, object unchanged", key="failed-run")
+            continue
+        if tuple(i[1:]) != want:
+            ctx.mismatch("parameter object after a failed run, and the next run, vs Failures.strong_tries / weak_tries", c, list(i[1:]), list(want), key="failed-run")
+        fresh = c["n"] if c["noisy"] else 1
+        if i[2] != fresh or i[3] != c["n"] or (c["class"] == "weak" and i[4] != c["n"]):
+            what = "shots" if c["class"] == "weak" else "num_traj"
+            ctx.violation("failed-run:" + c["class"], f"{c['class']}: a {'noisy' if c['failed_run_noisy'] else 'noise-free'} run on a parameter object with {what}={c['n']} failed inside the "
+                          f"engine (NotImplementedError, as for an unsupported gate) and left {what}={i[1]} on the object; the next {'noisy' if c['noisy'] else 'noise-free'} run "
+                          f"through simulator.run executed {i[2]} trajectories (fresh object: {fresh}), left {i[3]} and returned {i[4]} rows/counts",
+                          {"oracle": "failed-run", **c})
+
+
 def regenerate(ctx):
     """coq/Gen/InitGen.v from the current source of Observable.initialize (fail closed)"""
     from gen import translate_init
@@ -391,6 +475,7 @@ def correspond(ctx):
     alias_correspondence(ctx)
     init_rule_correspondence(ctx)
     refused_correspondence(ctx)
+    failed_correspondence(ctx)
     # layer sampling: the number of result columns of a run depends on the circuit of that run only (Params.run_layers)
     from drivers import C16
 
@@ -749,6 +834,12 @@ def pool_search(ctx):
 
 def replay(ctx, data):
     rp = data.get("replay", data)
+    if rp.get("oracle") == "failed-run":
+        i = failed_then_run(rp["class"], rp["n"], rp["failed_run_noisy"], rp["noisy"])
+        fresh = rp["n"] if rp["noisy"] else 1
+        if not i[0] or i[2] != fresh or i[3] != rp["n"] or (rp["class"] == "weak" and i[4] != rp["n"]):
+            return f"after the failed run the object holds {i[1]}; the next run executed {i[2]} (fresh: {fresh}), left {i[3]}, returned {i[4]}"
+        return None
     if rp.get("oracle") == "same-name":
         return same_name_oracle(rp["args"])
     if rp.get("oracle") == "refused":
